@@ -403,6 +403,14 @@ func checkC06(c *Ctx) {
 		evs = append(evs, e...)
 		files[id] = rec{src, o, res.Out + fmt.Sprint(res.Err), e}
 	}
+	if !c.Quick() {
+		// the design's invariants for runs of any length (Apalache, inductive)
+		ok, msg := runHoistInd(c, false)
+		c.CovSet("inductive_invariant", msg)
+		if !ok {
+			c.Fatal("HoistInd: %s", msg)
+		}
+	}
 	c.Cov("genhoist_files", int64(nfam))
 	to := runTraceSpec(c, "HoistTrace", "HoistTrace.cfg", "hoist.ndjson", evs)
 	for id, why := range to.Rejected {
